@@ -67,6 +67,7 @@ func (e *enum) Run(i int64, r *vf.Rec) {
 type plan struct {
 	root  []int
 	depth int
+	wide  bool // long last axis, Coarse enumeration (crosses the size thresholds a fast path may have); float64 and int32 only
 }
 
 func jobs(id, tier string) []job {
@@ -78,24 +79,38 @@ func jobs(id, tier string) []job {
 	case "C01":
 		opt.Writes = true
 		if tier == "quick" {
-			plans = []plan{{[]int{7}, 8}, {[]int{3, 4}, 8}, {[]int{2, 3, 4}, 8}, {[]int{2, 2, 2, 3}, 8}, {[]int{4, 5}, 8}}
+			plans = []plan{{[]int{7}, 8, false}, {[]int{3, 4}, 8, false}, {[]int{2, 3, 4}, 8, false}, {[]int{2, 2, 2, 3}, 8, false}, {[]int{4, 5}, 8, false}}
 		} else {
-			plans = []plan{{[]int{7}, 8}, {[]int{3, 4}, 8}, {[]int{2, 3, 4}, 8}, {[]int{2, 2, 2, 3}, 8}, {[]int{10}, 8}, {[]int{4, 5}, 8}, {[]int{3, 3, 3}, 8}}
+			plans = []plan{{[]int{7}, 8, false}, {[]int{3, 4}, 8, false}, {[]int{2, 3, 4}, 8, false}, {[]int{2, 2, 2, 3}, 8, false}, {[]int{10}, 8, false}, {[]int{4, 5}, 8, false}, {[]int{3, 3, 3}, 8, false}}
 		}
 	case "C02":
 		opt.Reshape, opt.BulkPairs, opt.Writes = true, true, true
 		if tier == "quick" {
-			plans = []plan{{[]int{6}, 2}, {[]int{3, 4}, 2}, {[]int{2, 3, 2}, 1}}
+			plans = []plan{{[]int{6}, 2, false}, {[]int{3, 4}, 2, false}, {[]int{2, 3, 2}, 1, false}}
 		} else {
-			plans = []plan{{[]int{6}, 4}, {[]int{3, 4}, 3}, {[]int{2, 3, 4}, 2}, {[]int{2, 2, 2, 3}, 1}}
+			plans = []plan{{[]int{6}, 4, false}, {[]int{3, 4}, 3, false}, {[]int{2, 3, 4}, 2, false}, {[]int{2, 2, 2, 3}, 1, false}}
 		}
 	case "C03":
 		opt.Reshape, opt.BulkPairs, opt.Writes = true, true, true
 		backends = map[string]bool{"c": true}
 		if tier == "quick" {
-			plans = []plan{{[]int{6}, 2}, {[]int{3, 4}, 2}, {[]int{2, 3, 2}, 1}}
+			plans = []plan{{[]int{6}, 2, false}, {[]int{3, 4}, 2, false}, {[]int{2, 3, 2}, 1, false}}
 		} else {
-			plans = []plan{{[]int{6}, 3}, {[]int{3, 4}, 2}, {[]int{2, 3, 4}, 1}, {[]int{2, 2, 2, 3}, 1}}
+			plans = []plan{{[]int{6}, 3, false}, {[]int{3, 4}, 2, false}, {[]int{2, 3, 4}, 1, false}, {[]int{2, 2, 2, 3}, 1, false}}
+		}
+	}
+	switch id {
+	case "C01":
+		if tier == "quick" {
+			plans = append(plans, plan{[]int{2, 3, 70}, 0, true}, plan{[]int{3, 40}, 0, true})
+		} else {
+			plans = append(plans, plan{[]int{2, 3, 70}, 1, true}, plan{[]int{3, 40}, 1, true})
+		}
+	default:
+		if tier == "quick" {
+			plans = append(plans, plan{[]int{2, 2, 35}, 0, true}, plan{[]int{66}, 0, true})
+		} else {
+			plans = append(plans, plan{[]int{2, 2, 35}, 1, true}, plan{[]int{66}, 1, true})
 		}
 	}
 	for _, p := range plans {
@@ -103,8 +118,12 @@ func jobs(id, tier string) []job {
 			if !backends[rn.Backend] {
 				continue
 			}
+			if p.wide && rn.Type != "float64" && !(rn.Type == "int32" && tier == "thorough") {
+				continue
+			}
 			o := opt
 			o.MaxDepth = p.depth
+			o.Coarse = p.wide
 			if tier == "thorough" && id == "C01" && len(p.root) <= 2 && rn.Type == "float64" {
 				o.WritePairs = true
 			}
